@@ -64,6 +64,16 @@ CHECKS = {
             "For each generated call the result must be bit-identical under every injected heap fill, every thread count, after any generated prefix of other library calls and on repetition, and arguments must be unchanged. The evidence lists which masked call sites / empty allocations the wrappers actually observed against the AST-derived list.",
             "Heap contents are modelled by pre-filling buffers numpy is left to allocate, not by driving malloc; OpenMP schedules not controllable.",
             "DESIGN.md §2 C19"),
+    "C16": ("exploration",
+            "Hypothesis-generated assignment sets x estimator configurations: MSM estimator vs hand-composed function pipeline (differential) and vs independent literal models; save/load round-trip with bit equality; eigen-decomposition validity predicates on five matrix families incl. ARPACK-sized chains; propagation vs literal p<-pT loop",
+            "Differential + reference-model search: counts exact, mapping equal, T and populations to 1e-12 against the composed pipeline and against own closed-form builders; round-trip equality incl. the class's own ==; spectral claims as validity predicates (real, sorted, leading 1, stationary left eigenvector, eigen-equation residual); exhaustive configuration enumeration on fixed assignment sets in thorough.",
+            "trim=False with unvisited states is outside the domain; ARPACK results checked as validity predicates (1e-8).",
+            "DESIGN.md §2 C16"),
+    "C18": ("exploration",
+            "Hypothesis-generated feature trajectories x integer dtypes x layouts x thread counts vs literal python counting (exact) and math.log reference MI; algebraic laws as metamorphic relations; invalid inputs in child interpreters; thorough repeats under ASan+UBSan and enumerates small tables exhaustively",
+            "Generated-input search with exact counting oracle and exact-rational reference mutual information; each law of the statement (non-negativity, symmetry, diagonal entropy, upper bound, relabelling, reordering, pooling, uniform weights, channel-capacity normalisation, KL) is its own clause; rejection of invalid ids is decided in child processes so that heap corruption is a recorded violation.",
+            "OpenMP schedule not controllable; ids < 2^31.",
+            "DESIGN.md §2 C18"),
 }
 
 NOT_YET = {}
